@@ -109,9 +109,10 @@ type CallPlan struct {
 	YieldOn      [simhttp.NumPoints]bool
 	SlowOn       [simhttp.NumPoints]bool
 
-	c07 *c07Info
-	byz *byzInfo            // C06: what the byzantine peer did
-	bin map[string][][]byte // original bytes of generated -Bin values
+	c07     *c07Info
+	c05mode int
+	byz     *byzInfo            // C06: what the byzantine peer did
+	bin     map[string][][]byte // original bytes of generated -Bin values
 
 	TimeoutString string // C10: header string under test and its class
 	TimeoutClass  string
